@@ -104,3 +104,12 @@ claim("C13",
       "per-connection user data checked against the connection's own history by a Python oracle and against the model.",
       MULTI_TB + "Per-connection user data (sync.Map) is exercised by the handler double and checked by the oracle; it is not part of the Coq connection state.",
       "Coq theorem (own-history fold, frame) + concurrent differential runs under the race detector")
+claim("C16",
+      "Theorems: the executable linearizability checker is sound (an accepted history has a permutation that reproduces every observed reply under the sequential reference semantics "
+      "of the commands - one loop iteration over the Redis reference primitives - and respects real-time order); executing commands one at a time (what the command lock around "
+      "handleMessage provides) yields linearizable histories for every command sequence and store; without atomicity the property is refuted (two INCRs with reads before both writes "
+      "reply 1, 1). The extracted checker judges real histories: 2..8 connections play GET/SET/SETNX/GETSET/INCR/DECRBY/APPEND/MSETNX/DEL concurrently (start barrier, free interleaving) "
+      "against the example store through the real loop, with invocation/response stamped from one logical clock: systematic contention shapes x 2/4/8 clients, random histories over 1..3 keys.",
+      MULTI_TB + "Partial: that every handler call happens under the command lock is observed through the histories (and the race detector in the thorough tier), not derived statically; "
+      "the Go scheduler decides which interleavings occur.",
+      "Coq-verified linearizability checker (extracted) judging recorded concurrent histories + theorem for atomic execution and refutation without it")
